@@ -11,6 +11,9 @@ CHECKS = {
  "C02": dict(category="exploration", technique="exhaustive enumeration of all pairs of normalised locations over a small genome x strands x flags, plus Hypothesis-generated un-normalised operands with parents; oracle = Python set algebra on covered positions",
    text="All ordered pairs of non-empty position subsets of a 7-base (quick) / 9-base (thorough) genome x 9 strand pairs x all match_strand/full_span combinations for has_overlap, intersection, contains, minus, union, union_preserve_overlaps, distance (4 types), and all unary operations; random operands with empty/adjacent/overlapping blocks and five parent configurations; every returned location validated structurally.",
    note="Difference/containment only for operands without self-overlap (as stated). Normalisation (no empty/adjacent blocks) is demanded of optimize_* results only. cgranges branch unreachable (not installed).", ref="DESIGN.md §5 C02"),
+ "C03": dict(category="exploration", technique="Hypothesis-generated locations over random genomes of every nucleotide alphabet, judged by a character-by-character sequence model with a typed-in IUPAC complement table",
+   text="Extraction, strand reversal and splitting at random cut points for locations of any block structure over genomes in all 5 nucleotide alphabets (IUPAC codes, gaps, lower case); chains of slice (explicit/open/negative bounds), index, reverse-complement and append on sequences with a recorded location, each result's location re-read against the root genome.",
+   note="T and U are identified when comparing reverse complements (complement(A) is T). Zero-length pieces may be refused. Known finding F3 (stepped slices).", ref="DESIGN.md §5 C03"),
  "C15": dict(category="exploration", technique="exhaustive enumeration of the finite domains against typed-in IUPAC tables and Biopython's NCBI codon tables",
    text="Every element of every finite domain (4096 IUPAC triplets x case, all alphabet letters, frames x shifts in [-30,30], all strand pairs/triples, all biotype names) is enumerated and compared with an independent reference; within those domains this is complete.",
    note="Trusts Biopython CodonTable ids 1/11 and Bio.Seq.complement; IUPAC tables typed into checks/c15.py.", ref="DESIGN.md §5 C15"),
